@@ -220,6 +220,13 @@ func (g *gen) sortOf(t types.Type) (string, bool) {
 		g.ensureSort(sErr)
 		return sErr, false
 	}
+	switch t.(type) {
+	case *types.Named, *types.Basic, *types.Pointer, *types.Slice, *types.Struct, *types.Array, *types.Interface,
+		*types.Signature, *types.Map, *types.Chan, *types.Tuple, *types.TypeParam:
+	default:
+		g.ensureSort("U_opaque")
+		return "U_opaque", false
+	}
 	switch u := t.Underlying().(type) {
 	case *types.Basic:
 		switch u.Kind() {
@@ -289,7 +296,11 @@ func (g *gen) sortOf(t types.Type) (string, bool) {
 }
 
 func isErrorType(t types.Type) bool {
-	return types.Identical(t, types.Universe.Lookup("error").Type())
+	switch t.(type) {
+	case *types.Named, *types.Interface, *types.Alias:
+		return types.Identical(t, types.Universe.Lookup("error").Type())
+	}
+	return false
 }
 
 func (g *gen) zero(t types.Type) T {
@@ -318,8 +329,8 @@ func (g *gen) zeroOfSort(s string, t types.Type) string {
 	case s == sSlice:
 		return sx("mk-slice", "0", g.idxLit(0), g.idxLit(0))
 	case s == sStr:
-		g.declare("ggstr.empty", fmt.Sprintf("(declare-const gstr.empty Str)\n(assert (= (gstr.len gstr.empty) %s))", g.idxLit(0)))
-		return "ggstr.empty"
+		g.declare("gstr.empty", fmt.Sprintf("(declare-const gstr.empty Str)\n(assert (= (gstr.len gstr.empty) %s))", g.idxLit(0)))
+		return "gstr.empty"
 	case strings.HasPrefix(s, "S_"):
 		if t != nil {
 			if st, ok := t.Underlying().(*types.Struct); ok {
@@ -337,7 +348,7 @@ func (g *gen) zeroOfSort(s string, t types.Type) string {
 		if t != nil {
 			if a, ok := t.Underlying().(*types.Array); ok {
 				es, _ := g.sortOf(a.Elem())
-				return fmt.Sprintf("((as const %s) %s)", s, g.zeroOfSort(es, a.Elem()))
+				return g.constArray(s, es, a.Elem())
 			}
 		}
 	}
@@ -866,4 +877,16 @@ func (g *gen) havocHeap(why string) {
 	nn := g.declConst("nalloc.hv", sInt)
 	g.assume(sx(">=", nn, oldn))
 	g.cur["nalloc"] = nn
+}
+
+// constArray: the all-zero array.  cvc5 accepts "as const" only with a value, so arrays of
+// opaque element sorts are an unconstrained constant (an over-approximation).
+func (g *gen) constArray(arrSort, es string, et types.Type) string {
+	if isBV(es) || es == sBool || es == sInt || isFP(es) {
+		return fmt.Sprintf("((as const %s) %s)", arrSort, g.zeroOfSort(es, et))
+	}
+	n := "zeroarr." + sortID(es)
+	g.ensureSort(es)
+	g.declare(n, fmt.Sprintf("(declare-const %s %s)", n, arrSort))
+	return n
 }
